@@ -65,6 +65,23 @@ def child_list_rules(eng: Engine, ck: Check, rule: str):
 
 
 
+def unset_parent_clears(eng: Engine, ck: Check, rule: str):
+    """_unset_parent forgets the parent on EVERY path (also when there is no session to advertise to): shared by C13 (tree shape) and C16
+    (the position advertised after the next login is derived from self.parent)."""
+    up = eng.func(DIST, f'{DN}._unset_parent')
+    ck.visited(up)
+    stores = [st for f, st, v in eng.stores_to_attr('parent', [up]) if v is not None and is_none_const(v)]
+    ok = len(stores) == 1 and not eng.guards_at(up, stores[0])
+    if ok:
+        c = eng.cfg(up)
+        sn = c.nodes_for(stores[0])
+        p = c.find_path([c.entry], lambda n: n.kind == 'exit_return', avoid=lambda n: n in sn, edge_ok=lambda a, b, lab: lab == 'next')
+        ok = p is None
+    ck.ob(rule, up, stores[0] if stores else up.node, '_unset_parent clears self.parent unconditionally, before any early return', ok,
+          'self.parent = None is missing, conditional, or skipped by an early return (e.g. "no session"): a parent lost while logged out stays set, and the '
+          'next login advertises its level/root and switches the parent search off', construct='_unset_parent clears parent')
+
+
 def run(eng: Engine, ck: Check):
     repo = eng.repo
     dn = eng.cls(DN, DIST)
@@ -149,6 +166,7 @@ def run(eng: Engine, ck: Check):
               construct='set parent: not a child')
         ck.ob('R-C13-PARENT', f, st, 'a parent is taken only once both its branch level and root are known', complete >= 2, f'{complete} of 2 tests',
               construct='set parent: level and root known')
+    unset_parent_clears(eng, ck, 'R-C13-PARENT')
     up = eng.func(DIST, f'{DN}._unset_parent')
     for call in calls_on(sc.node, '_unset_parent'):
         gs = eng.guards_at(sc, call)
@@ -270,6 +288,8 @@ def run(eng: Engine, ck: Check):
                   f'{"is" if kind == "server" else "are"} told the new position on every normal path', p is None,
                   f'normal return reachable without notifying the {kind}: lines {c.describe_path(p, f.where) if p else ""}',
                   construct=f'{f.qualname}: {what} change -> notify {kind}')
+    from .c14 import fanout_rules
+    fanout_rules(eng, ck, 'R-C13-ADVERT')
     osi = eng.func(DIST, f'{DN}._on_session_initialized')
     ok = any(not eng.guards_at(osi, call) for call in calls_on(osi.node, '_notify_server_of_parent'))
     ck.ob('R-C13-ADVERT', osi, osi.node, 'the initial position is advertised to the server after login', ok, '', construct='initial advert')
